@@ -19,25 +19,37 @@ theorem run_append (fl : Flavour) (s : State) (a b : List Op) :
   | nil => rfl
   | cons x rest ih => simp [run, ih]
 
-/-- **Errors leave the state unchanged** — for every operation except `mkdir`
-(see `mkdir_error_witness`: the code that exists creates the directory before
-`add` refuses it). -/
-theorem step_error_unchanged_partial (fl : Flavour) (s : State) (op : Op)
-    (hm : ∀ p, op ≠ .mkdir p) (h : (step fl s op).2 = .err) : (step fl s op).1 = s := by
+/-- **Errors leave the state unchanged**, for every operation, both flavours. -/
+theorem step_error_unchanged (fl : Flavour) (s : State) (op : Op)
+    (h : (step fl s op).2 = .err) : (step fl s op).1 = s := by
   unfold step at h ⊢
   split at h
   · cases h
-  · cases op <;> first | rfl | exact absurd rfl (hm _)
+  · rfl
 
-/-- non-vacuity: an operation that fails (adding a path that does not exist) -/
+/-- non-vacuity: operations that fail -/
 example : (step .bzr init (.add ["zz"])).2 = .err := by decide +kernel
 
-/-- **Witness**: `mkdir` below an unversioned directory raises, but the
-directory has been created on disk. -/
-theorem mkdir_error_witness :
-    let s := run .bzr init [.mkdir ["b"], .remove ["b"] false]
-    (step .bzr s (.mkdir ["b", "c"])).2 = .err ∧
-    ((step .bzr s (.mkdir ["b", "c"])).1.disk.length, s.disk.length) = (3, 2) := by decide +kernel
+/-- `mkdir` below a directory that is not versioned fails and leaves nothing
+behind (instance of `step_error_unchanged`; the real code used to leave the
+directory on disk — fixed in /repo, kept as a regression statement) -/
+theorem mkdir_error_no_leftover :
+    (step .bzr (run .bzr init [.mkdir ["b"], .remove ["b"] false]) (.mkdir ["b", "c"])).2 = .err ∧
+    (step .bzr (run .bzr init [.mkdir ["b"], .remove ["b"] false]) (.mkdir ["b", "c"])).1
+      = run .bzr init [.mkdir ["b"], .remove ["b"] false] := by
+  have h : (step .bzr (run .bzr init [.mkdir ["b"], .remove ["b"] false]) (.mkdir ["b", "c"])).2 = .err := by
+    decide +kernel
+  exact ⟨h, step_error_unchanged _ _ _ h⟩
+
+/-- renaming a path that is not on disk fails in both flavours, whatever is at
+the target (git's `rename_one` used to version an unversioned target file) -/
+theorem rename_missing_source_fails (fl : Flavour) (s : State) (a b : Path)
+    (h : idAt s.disk a = none) : step fl s (.rename a b) = (s, .err) := by
+  simp [step, stepOk, h]
+
+/-- non-vacuity: a missing source with an existing unversioned target -/
+example : idAt (run .git init [.mkfile ["a"] "78"]).disk ["zz"] = none ∧
+    (idAt (run .git init [.mkfile ["a"] "78"]).disk ["a"]).isSome = true := by decide +kernel
 
 theorem contentChanged_self (n : Node) : contentChanged n n = false := by
   cases n <;> simp [contentChanged]
@@ -195,13 +207,5 @@ theorem revert_only_basis (fl : Flavour) (s : State) (i : Id) (hi : i ∉ ids s.
 example :
     let s := run .bzr init [.mkfile ["f"] "78", .add ["f"], .commit, .remove ["f"] true]
     ((listing (wtTree s)).length, (listing (wtTree (step .bzr s .revert).1)).length) = (1, 2) := by decide +kernel
-
-/-- **Witness (git `rename_one`, "after" mode)**: renaming a path that does not
-exist onto an unversioned file succeeds and versions the file. -/
-theorem git_rename_after_witness :
-    let s := run .git init [.mkfile ["a"] "78"]
-    (step .git s (.rename ["zz"] ["a"])).2 = .ok ∧
-    ((listing (wtTree s)).length, (listing (wtTree (step .git s (.rename ["zz"] ["a"])).1)).length) = (1, 2) := by
-  decide +kernel
 
 end BreezyVerif.C09
